@@ -86,7 +86,7 @@ type RunFunc func(ch *core.Chooser, env *Env) *Outcome
 // Registry maps property ids to their run functions.
 var Registry = map[string]RunFunc{}
 
-var listIDPool = []int{1, 2, 3, 0, -1, 1000, math.MinInt32, math.MaxInt32, -77}
+var listIDPool = []int{1, 2, 3, 0, -1, 1000, math.MinInt32, math.MaxInt32, -77, 32768, -32769, 65535, 65536, 70000, 1<<24 + 3, -40000}
 
 var bufKnob = []int{0, 0, 4096, 64, 7, 3, 2, 1}
 
